@@ -189,10 +189,14 @@ impl Mode {
 
     /// Convenience function to push a value onto the stack
     pub fn push_value(&self, block: &mut Block, value: Expression) -> Result<(), Error> {
-        match self {
-            Mode::X86 => block.assign(self.sp(), Expr::sub(self.sp().into(), expr_const(4, 32))?),
-            Mode::Amd64 => block.assign(self.sp(), Expr::sub(self.sp().into(), expr_const(8, 64))?),
-        };
+        // the stack pointer moves by the size of the value pushed (2 for a 16-bit operand)
+        block.assign(
+            self.sp(),
+            Expr::sub(
+                self.sp().into(),
+                expr_const((value.bits() / 8) as u64, self.bits()),
+            )?,
+        );
 
         block.store(self.sp().into(), value);
         Ok(())
